@@ -5,6 +5,10 @@ removed afterwards; after every operation the content is read back (bytes) and c
 the model's explicit file state.  History ops (case = whole operation list):
   [0] new provider object   [1] next()   [2] current()   [3] file deleted from outside
   4::codes file overwritten from outside   [5,k] k x next()   [6,k] k x (new object; next())
+Live-object histories (ops 303 / 304) additionally drive every public setter / attribute of ONE provider
+object: [7,w] max_bit_width = w, [10,c] count = c (in-memory), [0,w] new object of another width,
+[8] file_name = other path, [9] create_new(), [12] next() on a second provider object living on the other
+file with its own width, 13::codes check_count(line); observed after every op.
 """
 import itertools, os, re, shutil, tempfile
 from pathlib import Path
@@ -27,6 +31,9 @@ ASSUMPTIONS = [
 ]
 TRUSTED = ["the adapter's temporary-file handling (tempfile.mkdtemp, read_bytes after each call)"]
 EXPLORED_ONLY = [
+    "a count the caller itself puts outside [0, 2^w - 1] (SeqCountProvider.count attribute, or narrowing max_bit_width "
+    "below the running count) is returned once by the in-memory provider before it wraps; the file provider refuses such "
+    "content with ValueError.  Modelled faithfully, not judged by the oracle (the property's histories contain no setter)",
     "non-ASCII file content (Unicode digits are accepted by str.isdigit and int; invalid UTF-8 raises UnicodeDecodeError, "
     "a ValueError): explored on the implementation only with the oracle 'ValueError, or a count in range and a valid file "
     "afterwards' (stream explored_non_ascii); outside the model's alphabet, not proved",
@@ -110,6 +117,87 @@ def _file_history(w, content, ops, pus):
         env.close()
 
 
+class _Env2:
+    """two count files A and B; the main provider starts on A, a second provider (own width) lives on B"""
+    def __init__(self, w, pus, w2, content_a, content_b):
+        self.dir = tempfile.mkdtemp(prefix="c19-")
+        self.paths = [Path(self.dir) / "seqcnt.txt", Path(self.dir) / "other.txt"]
+        self.pus = pus
+        for p, c in zip(self.paths, (content_a, content_b)):
+            if c is not None:
+                p.write_bytes(bytes(c))
+        self.prov = self.make(w, self.paths[0])
+        self.prov2 = S.FileSeqCountProvider(w2, self.paths[1])
+
+    def make(self, w, path):
+        return S.PusFileSeqCountProvider(path) if (self.pus and w == 14) else S.FileSeqCountProvider(w, path)
+
+    def obs(self):
+        fa, fb = [_file_arg(p.read_bytes() if p.exists() else None) for p in self.paths]
+        return [fa, fb, [self.prov.max_bit_width, self.paths.index(self.prov.file_name)]]
+
+    def close(self):
+        shutil.rmtree(self.dir, ignore_errors=True)
+
+
+def _call(fn):
+    try:
+        return [0, fn()]
+    except Exception as e:
+        return [1, _err(e)]
+
+
+def _world_history(w, pus, w2, ca, cb, ops):
+    env = _Env2(w, pus, w2, ca, cb)
+    try:
+        out = env.obs()
+        flip = 0
+        for o in ops:
+            k = o[0]
+            if k == 0:
+                env.prov = env.make(o[1], env.prov.file_name); r = [0]
+            elif k == 1:
+                flip ^= 1
+                r = _call((lambda: next(env.prov)) if flip else env.prov.get_and_increment)
+            elif k == 2:
+                r = _call(env.prov.current)
+            elif k == 3:
+                if env.prov.file_name.exists():
+                    os.remove(env.prov.file_name)
+                r = [0]
+            elif k == 4:
+                env.prov.file_name.write_bytes(bytes(o[1:])); r = [0]
+            elif k in (5, 6):
+                vals, r = [], None
+                for _ in range(o[1]):
+                    try:
+                        if k == 6:
+                            env.prov = env.make(env.prov.max_bit_width, env.prov.file_name)
+                        vals.append(next(env.prov))
+                    except Exception as e:
+                        r = [1, _err(e)] + vals
+                        break
+                if r is None:
+                    r = [0] + vals
+            elif k == 7:
+                env.prov.max_bit_width = o[1]; r = [0]
+            elif k == 8:
+                env.prov.file_name = env.paths[1 - env.paths.index(env.prov.file_name)]; r = [0]
+            elif k == 9:
+                env.prov.create_new(); r = [0]
+            elif k == 12:
+                r = _call(lambda: next(env.prov2))
+            elif k == 13:
+                line = bytes(o[1:]).decode("ascii")
+                r = _call(lambda: env.prov.check_count(line))
+            else:
+                raise RuntimeError("bad history op")
+            out += [r] + env.obs()
+        return out
+    finally:
+        env.close()
+
+
 # ---- reference reading of a count file, written independently of the implementation and the model
 _LINE = re.compile(rb"([0-9]+)[\t\n\x0b\x0c\r\x1c-\x1f ]*\Z")
 
@@ -128,7 +216,40 @@ def held_count(w, file_arg):
     return v if 0 <= v <= 2 ** w - 1 else "bad"
 
 
+def line_count(w, b):
+    """reference for check_count(line): 'bad' or the count"""
+    mm = _LINE.fullmatch(bytes(b))
+    if mm is None or len(mm.group(1)) > 4000:
+        return "bad"
+    v = int(mm.group(1))
+    return v if 0 <= v <= 2 ** w - 1 else "bad"
+
+
 def impl(op, a):
+    if op == 303:
+        p = S.SeqCountProvider(a[0][0])
+        out = [[p.count, p.max_bit_width]]
+        flip = 0
+        for o in a[1:]:
+            k = o[0]
+            if k == 1:
+                flip ^= 1
+                r = [0, next(p) if flip else p.get_and_increment()]
+            elif k == 5:
+                r = [0] + [next(p) for _ in range(o[1])]
+            elif k == 7:
+                p.max_bit_width = o[1]; r = [0]
+            elif k == 10:
+                p.count = o[1]; r = [0]
+            else:
+                raise RuntimeError("bad history op")
+            out += [r, [p.count, p.max_bit_width]]
+        return out
+    if op == 304:
+        w, pus, w2 = a[0][0], len(a[0]) > 1 and a[0][1] == 1 and a[0][0] == 14, a[0][2]
+        ca = None if (not a[1] or a[1][0] == 0) else a[1][1:]
+        cb = None if (not a[2] or a[2][0] == 0) else a[2][1:]
+        return _world_history(w, pus, w2, ca, cb, a[3:])
     if op == 300:
         w, n = a[0]
         p = S.SeqCountProvider(w)
@@ -253,6 +374,101 @@ def streams(tier, rng):
                 ops.append([rng.choice([5, 6]), rng.randrange(0, 2 * min(top, 40) + 3)])
         cases.append((301, [[w, rng.randrange(2)], _file_arg(start)] + ops))
     yield "random_histories", "exact", cases
+    # 7. live in-memory provider: every width 0..66 with the count placed just below the maximum through the
+    #    public `count` attribute, the width changed through the public setter (widened / narrowed) on the live
+    #    object, and random histories of up to 10 such operations
+    cases = []
+    for w in list(range(0, 67)) + [100, 128]:
+        top = 2 ** w
+        cases.append((303, [[w], [10, max(top - 3, 0)], [5, 7]]))
+        cases.append((303, [[w], [10, top - 1], [1], [1], [1]]))
+        for w0 in {max(w - 3, 0), w + 3, 14, 0}:
+            # constructed with another width, then re-configured: must count modulo 2^w from then on
+            cases.append((303, [[w0], [7, w], [10, max(top - 2, 0)], [5, 5]]))
+            cases.append((303, [[w0], [5, 3], [7, w], [10, max(top - 2, 0)], [1], [1], [1], [7, w0], [10, 0], [1], [1]]))
+        if w <= 10:
+            cases.append((303, [[w + 2], [7, w], [5, 2 * top + 3]]))
+            cases.append((303, [[max(w - 1, 0)], [7, w], [5, 2 * top + 3]]))
+    for _ in range(3000 if big else 600):
+        w = rng.choice([0, 1, 2, 3, 4, 8, 14, 16, 31, 32, 53, 54, 63, 64])
+        ops = []
+        for _ in range(rng.randrange(1, 11)):
+            k = rng.random()
+            top = 2 ** w
+            if k < 0.4:
+                ops.append([1])
+            elif k < 0.55:
+                ops.append([5, rng.randrange(0, 2 * min(top, 20) + 3)])
+            elif k < 0.8:
+                w = rng.choice([0, 1, 2, 3, 4, 8, 14, 16, 31, 32, 53, 54, 63, 64, max(w - 1, 0), w + 1])
+                ops.append([7, w])
+            else:
+                ops.append([10, max(0, rng.choice([0, top - 2, top - 1, rng.randrange(top)]))])
+        cases.append((303, [[rng.choice([0, 1, 2, 8, 14, 16, 64])]] + ops))
+    yield "live_mem_setters", "exact", cases
+    # 8. live file provider: every width 0..66 reached through the max_bit_width setter from another width
+    #    (widened and narrowed), file contents 2^w-2 .. 2^w+1 and counts run over the wrap
+    cases = []
+    for w in list(range(0, 67)) + [100, 128]:
+        top = 2 ** w
+        for w0 in sorted({max(w - 3, 0), w + 3, 14}):
+            ops = [[7, w]]
+            for v in (top - 1, top, top + 1, max(top - 2, 0)):
+                ops += [[4] + list(b"%d\n" % v), [2], [1], [2]]
+            ops += [[1], [1], [6, 2], [7, w0], [2], [1]]
+            cases.append((304, [[w0, int(w0 == 14), w], [0], [0]] + ops))
+        cases.append((304, [[w, 0, max(w - 1, 0)], _file_arg(b"%d\n" % max(top - 2, 0)), _file_arg(b"%d\n" % max(top // 2 - 1, 0)),
+                            [1], [12], [1], [12], [1], [8], [1], [8], [1], [12]]))
+        if w <= 11:
+            # a full cycle after widening / after narrowing on the live object, and after a new object of that width
+            cases.append((304, [[w + 3, 0, 3], [0], [0], [7, w], [5, top + 3]]))
+            cases.append((304, [[max(w - 2, 0), 0, 3], [0], [0], [7, w], [5, top + 3], [0, w], [5, 2]]))
+    yield "exh_file_setter_widths", "exact", cases
+    cases = []
+    for _ in range(4000 if big else 700):
+        w = rng.choice([0, 1, 2, 3, 4, 8, 14, 16, 32, 64])
+        w2 = rng.choice([0, 1, 2, 3, 8, 14])
+        first = [w, rng.randrange(2), w2]
+        ca = rng.choice([None, b"0\n", b"%d\n" % rng.randrange(2 ** w), b"%d\n" % (2 ** w - 1), b"%d\n" % 2 ** w, b"junk\n", b""])
+        cb = rng.choice([None, b"0\n", b"%d\n" % (2 ** w2 - 1), b"%d" % rng.randrange(2 ** w2)])
+        ops = []
+        for _ in range(rng.randrange(1, 12)):
+            k = rng.random()
+            top = 2 ** w
+            if k < 0.3:
+                ops.append([1])
+            elif k < 0.38:
+                ops.append([2])
+            elif k < 0.55:
+                w = rng.choice([0, 1, 2, 3, 4, 8, 14, 16, 32, 64, max(w - 1, 0), w + 1])
+                ops.append([rng.choice([7, 7, 0]), w])
+            elif k < 0.62:
+                ops.append([8])
+            elif k < 0.67:
+                ops.append([9])
+            elif k < 0.75:
+                ops.append([12])
+            elif k < 0.80:
+                ops.append([3])
+            elif k < 0.88:
+                ops.append([4] + list(rng.choice([b"%d\n" % max(0, rng.choice([top - 2, top - 1, top, top + 1])), b"%d" % rng.randrange(top), b"x\n", b"", b"03\n"])))
+            elif k < 0.94:
+                ops.append([rng.choice([5, 6]), rng.randrange(0, 2 * min(top, 20) + 3)])
+            else:
+                ops.append([13] + list(rng.choice([b"%d\n" % max(0, rng.choice([top - 1, top, top + 1])), b"7 \t\n", b" 7\n", b"", b"1\n2", b"-1\n", b"007"])))
+        cases.append((304, [first, _file_arg(ca), _file_arg(cb)] + ops))
+    yield "live_file_setters", "exact", cases
+    # 9. content sizes: every length 0..1100 (thorough 0..3900) of leading zeros / trailing blanks / digits /
+    #    bytes behind the first line (kept by the in-place write)
+    cases = []
+    for n in range(0, 3901 if big else 1101):
+        # (the long all-digit numeral costs the extracted model ~n^2: sampled near the multiples of 256 only)
+        near = n < 40 or min(n % 256, 256 - n % 256) <= 8
+        kinds = [0, 1, 3] + ([2] if ((near and n <= 2100) or n % (64 if big else 32) == 0) else [])
+        for kind in kinds:
+            c = [b"0" * n + b"5\n", b"6" + b" \t"[n % 2:n % 2 + 1] * n + b"\n", b"9" * n + b"\n", b"3\n" + b"x" * n][kind]
+            cases.append((301, [[rng.choice([3, 14, 64])], _file_arg(c), [2], [1], [0], [1]]))
+    yield "exh_content_sizes", "exact", cases
     # 6. exploration only: non-ASCII content (outside the model's alphabet; model side is a constant)
     cases = []
     for c in ["٣\n", "²\n", "é\n", "1٣\n", "１２\n", "5 \n", "5  6\n", "५\n", "①\n", "3\u0085\n"]:
@@ -286,6 +502,10 @@ def oracle(case, ires, sres):
                     "width %d: call %d returned %s, expected %d mod 2^%d = %s (values must stay in [0, %d])" %
                     (w, i, vals[i] if i < len(vals) else None, i, w, exp[i] if i < len(exp) else None, 2 ** w - 1))
         return None
+    if op == 303:
+        return _oracle_mem(a, ires)
+    if op == 304:
+        return _oracle_world(a, ires)
     if op == 302:
         if ires[1] != [1]:
             return ("C19/FileSeqCountProvider/non-ascii-content", "content %s: returned %s, file afterwards %s" % (a[1], ires[1], ires[2:]))
@@ -348,6 +568,155 @@ def oracle(case, ires, sres):
                         return ("C19/FileSeqCountProvider.get_and_increment/file-state", "after %d calls from %d the file %s does not hold %d" % (n, h, f2, (h + n) % top))
             f = f2
         return None
+    return None
+
+
+def _oracle_mem(a, ires):
+    """live in-memory provider: next() returns the current count and moves to (count + 1) mod 2^w for the width
+    configured AT THAT MOMENT; setters change exactly what they name.  A count the caller itself placed outside
+    [0, 2^w - 1] (count attribute, or narrowing below the running count) is not judged for that call."""
+    w, c = a[0][0], 0
+    n_ops = len(a) - 1
+    if len(ires) != 2 + 2 * n_ops:
+        return ("C19/adapter/history-shape", "%d lines for %d ops" % (len(ires), n_ops))
+    if ires[1] != [0, w]:
+        return ("C19/SeqCountProvider.__init__/state", "fresh provider of width %d shows (count, width) = %s" % (w, ires[1]))
+    for i, o in enumerate(a[1:]):
+        r, st = ires[2 + 2 * i], ires[3 + 2 * i]
+        k = o[0]
+        if k == 7:
+            w = o[1]
+        elif k == 10:
+            c = o[1]
+        else:
+            n = 1 if k == 1 else o[1]
+            vals = r[1:]
+            if r[0] != 0 or len(vals) != n:
+                return ("C19/SeqCountProvider.get_and_increment/raises", "step %d: %s" % (i, r[:6]))
+            for j, x in enumerate(vals):
+                if 0 <= c <= 2 ** w - 1:
+                    if x != c:
+                        return ("C19/SeqCountProvider.get_and_increment/sequence",
+                                "step %d (width now %d): call %d returned %d, expected %d" % (i, w, j, x, c))
+                    c = (c + 1) % 2 ** w
+                else:      # caller-made out-of-range state: re-base on what the provider does next
+                    c = None
+                    break
+            if c is None:
+                c = st[0]
+                continue
+        if st != [c, w]:
+            return ("C19/SeqCountProvider.%s/state" % {7: "max_bit_width", 10: "count"}.get(k, "get_and_increment"),
+                    "step %d (%s): (count, width) is %s, expected %s" % (i, o[:2], st, [c, w]))
+    return None
+
+
+def _oracle_world(a, ires):
+    """live file providers: every call obeys the width the provider object is configured with at that moment and
+    the file its file_name names at that moment; nothing else is touched."""
+    w, w2 = a[0][0], a[0][2]
+    ops = a[3:]
+    if len(ires) != 1 + 3 + 4 * len(ops):
+        return ("C19/adapter/history-shape", "%d lines for %d ops" % (len(ires), len(ops)))
+    files = [ires[1], ires[2]]
+    given = [a[1] if a[1] else [0], a[2] if a[2] else [0]]
+    for g, f, ww in zip(given, files, (w, w2)):
+        if g[0] == 0:
+            if held_count(ww, f) != 0:
+                return ("C19/FileSeqCountProvider.__init__/create", "missing file not created with count 0: %s" % (f,))
+        elif f != g:
+            return ("C19/FileSeqCountProvider.__init__/touches-file", "existing file changed by construction: %s -> %s" % (g, f))
+    if ires[3] != [w, 0]:
+        return ("C19/FileSeqCountProvider.__init__/state", "(max_bit_width, file) = %s, expected %s" % (ires[3], [w, 0]))
+    cur = 0
+
+    def nxt(name, ww, f, r, f2, i):
+        """one next() of a provider of width ww on file content f"""
+        h = held_count(ww, f)
+        if h is None or h == "bad":
+            exp = [1, E_FNF] if h is None else [1, E_VALUE]
+            if r != exp or f2 != f:
+                return ("C19/%s.get_and_increment/%s" % (name, "missing" if h is None else "bad-content"),
+                        "step %d (width now %d): next() on %s gave %s (file then %s), expected %s" % (i, ww, f[:24], r, f2[:24], exp))
+            return None
+        if r != [0, h]:
+            return ("C19/%s.get_and_increment/sequence" % name, "step %d (width now %d): file %s holds %d but next() gave %s" % (i, ww, f[:24], h, r))
+        if held_count(ww, f2) != (h + 1) % 2 ** ww:
+            return ("C19/%s.get_and_increment/file-state" % name,
+                    "step %d (width now %d): after returning %d the file %s does not hold %d" % (i, ww, h, f2[:24], (h + 1) % 2 ** ww))
+        return None
+
+    for i, o in enumerate(ops):
+        r = ires[4 + 4 * i]
+        f2s = [ires[5 + 4 * i], ires[6 + 4 * i]]
+        st = ires[7 + 4 * i]
+        k = o[0]
+        f, f2 = files[cur], f2s[cur]
+        touched = {cur}
+        if k == 0:
+            w = o[1]
+            h = held_count(w, f)
+            if (h is None and held_count(w, f2) != 0) or (h is not None and f2 != f):
+                return ("C19/FileSeqCountProvider.__init__/restart", "step %d: new instance on %s left %s" % (i, f[:24], f2[:24]))
+        elif k == 1:
+            m = nxt("FileSeqCountProvider", w, f, r, f2, i)
+            if m:
+                return m
+        elif k == 2:
+            h = held_count(w, f)
+            exp = [1, E_FNF] if h is None else [1, E_VALUE] if h == "bad" else [0, h]
+            if r != exp or f2 != f:
+                return ("C19/FileSeqCountProvider.current/%s" % ("missing" if h is None else "bad-content" if h == "bad" else "value"),
+                        "step %d (width now %d): current() on %s gave %s (file then %s), expected %s" % (i, w, f[:24], r, f2[:24], exp))
+        elif k in (3, 4):
+            pass
+        elif k in (5, 6):
+            n = o[1]
+            h = held_count(w, f)
+            if k == 6 and h is None and n > 0:
+                h = 0
+            if h is None or h == "bad":
+                exp = ([1, E_FNF] if h is None else [1, E_VALUE]) if n > 0 else [0]
+                if r != exp:
+                    return ("C19/FileSeqCountProvider.get_and_increment/%s" % ("missing" if h is None else "bad-content"),
+                            "step %d: %d x next() on %s gave %s" % (i, n, f[:24], r[:6]))
+            else:
+                exp = [0] + [(h + j) % 2 ** w for j in range(n)]
+                if r != exp:
+                    j = next((j for j, (x, y) in enumerate(zip(r, exp)) if x != y), min(len(r), len(exp)))
+                    return ("C19/FileSeqCountProvider.get_and_increment/sequence",
+                            "step %d: width now %d, from %d%s: position %d is %s, expected %s" %
+                            (i, w, h, " (new instance before every call)" if k == 6 else "", j - 1, r[j:j + 1], exp[j:j + 1]))
+                if n > 0 and held_count(w, f2) != (h + n) % 2 ** w:
+                    return ("C19/FileSeqCountProvider.get_and_increment/file-state",
+                            "step %d: after %d calls from %d the file %s does not hold %d" % (i, n, h, f2[:24], (h + n) % 2 ** w))
+        elif k == 7:
+            w = o[1]
+            touched = set()
+        elif k == 8:
+            cur = 1 - cur
+            touched = set()
+        elif k == 9:
+            if f2 != _file_arg(b"0\n"):
+                return ("C19/FileSeqCountProvider.create_new/content", "step %d: create_new() left %s" % (i, f2[:24]))
+        elif k == 12:
+            m = nxt("FileSeqCountProvider(second object)", w2, files[1], r, f2s[1], i)
+            if m:
+                return m
+            touched = {1}
+        elif k == 13:
+            h = line_count(w, o[1:])
+            exp = [1, E_VALUE] if h == "bad" else [0, h]
+            if r != exp:
+                return ("C19/FileSeqCountProvider.check_count/%s" % ("bad-content" if h == "bad" else "value"),
+                        "step %d (width now %d): check_count(%s) gave %s, expected %s" % (i, w, o[1:24], r, exp))
+            touched = set()
+        for j in (0, 1):
+            if j not in touched and f2s[j] != files[j]:
+                return ("C19/FileSeqCountProvider/foreign-file-touched", "step %d (%s): file %d changed from %s to %s" % (i, o[:2], j, files[j][:24], f2s[j][:24]))
+        if st != [w, cur]:
+            return ("C19/FileSeqCountProvider.max_bit_width/state", "step %d (%s): (max_bit_width, file) = %s, expected %s" % (i, o[:2], st, [w, cur]))
+        files = f2s
     return None
 
 
